@@ -15,7 +15,9 @@ def run(tier='quick', seed=0, only=None):
     if not only:
         from bounded import messages as _b
         from bounded import armor as _ba
-        bounded = [_b.component, codecs.partial_lengths_bounded, _ba.short_crc_component]     # imported messages may use partial body lengths (4.2.2.4)
+        # imported messages may use partial body lengths (4.2.2.4); the armored export carries the message's OWN header lines (a charset hint
+        # given to one message is not found on another)
+        bounded = [_b.component, codecs.partial_lengths_bounded, _ba.short_crc_component, _ba.header_isolation_component]
     return runner.run_property(PID, its, bounded=bounded, tier=tier, seed=seed, level='proof',
                                trusted_base=['pyvc symbolic executor', 'z3 5.1 / cvc5 1.0.3'],
                                assumptions=['compression externals (zlib/bz2): contracts stated in contracts/compression.py (framing of zlib.compress; zlib.decompress takes every RFC 1951 stream exactly with wbits=-15); that they are inverse pairs is checked natively, bounded'])
